@@ -4,6 +4,7 @@ package gossip
 
 import (
 	"fmt"
+	"runtime"
 	"sort"
 	"sync"
 	"testing/synctest"
@@ -36,6 +37,7 @@ type h1Free struct {
 	leftAll  map[string]time.Time // subject -> instant from which every running member has seen it as left
 	crashedAt map[string]time.Time
 	faultFree bool // no loss, no partition, no crash in this case
+	expiryProbe bool
 }
 
 func (f *h1Free) lifeOf(o, x string) *h1Life {
@@ -64,13 +66,17 @@ func h1GenFree(prop string) func(rng *simkit.Rand, tier string, idx int) *simkit
 		c.Cfg["pkt_reorder"] = int64([]int{0, 50, 200}[rng.Intn(3)])
 		c.Cfg["pkt_delay_us"] = int64([]int{100, 1000, 5000}[rng.Intn(3)])
 		c.Cfg["yield_den"] = []int64{0, 64, 8, 2}[rng.Intn(4)]
+		c.Cfg["net_quantum_us"] = []int64{0, 1000, 1000, 10000}[rng.Intn(4)]
+		if prop == "C14" {
+			c.Cfg["expiry_probe"] = int64(rng.Intn(2))
+		}
 		steps := rng.Range(6, 24)
 		if tier == "thorough" {
 			steps = rng.Range(6, 40)
 		}
 		// weights: upsert delete leave crash partition heal addnode wait longwait
 		w := []int{24, 10, 4, 4, 6, 6, 2, 30, 6}
-		if prop == "C11" {
+		if prop == "C11" || prop == "C14" {
 			w = []int{10, 4, 8, 10, 10, 8, 3, 24, 14}
 		}
 		if prop == "C12" {
@@ -107,10 +113,12 @@ func h1ExecFree(run *simkit.Run) {
 	ncfg := simnet.Config{
 		PktDrop: c.I64("pkt_drop"), PktDup: c.I64("pkt_dup"), PktReorder: c.I64("pkt_reorder"),
 		PktDelay: time.Duration(c.Int("pkt_delay_us")) * time.Microsecond, PktJitter: time.Duration(c.Int("pkt_delay_us")) * time.Microsecond,
+		Quantum: time.Duration(c.Int("net_quantum_us")) * time.Microsecond,
 	}
 	w := newH1World(run, c.Int("nodes"), c.Int("max_packet"), interval, false, ncfg)
 	f := &h1Free{w: w, interval: interval, life: map[h1Pair]*h1Life{}, leftAll: map[string]time.Time{}, crashedAt: map[string]time.Time{}}
 	w.free = f
+	f.expiryProbe = c.On("expiry_probe")
 	f.faultFree = c.I64("pkt_drop") == 0 && c.I64("pkt_reorder") == 0
 	for _, op := range c.Script {
 		if op.K == "crash" || op.K == "partition" {
@@ -260,10 +268,40 @@ func (f *h1Free) onDeliver(src, dst string, b []byte) {
 // noteExpired / noteJoin are called from the watcher (under piko's state mutex).
 func (f *h1Free) noteExpired(o int, id string) {
 	f.mu.Lock()
-	defer f.mu.Unlock()
 	l := f.lifeOf(fmt.Sprintf("n%d", o), id)
 	l.expired, l.expiredAt = true, time.Now()
 	l.arrivals = nil
+	f.mu.Unlock()
+	if f.expiryProbe {
+		f.digestDuringExpiry(o, id)
+	}
+}
+
+// digestDuringExpiry places a fault inside the operation: at the very instant
+// observer o announces the expiry of id, a round-opening digest from a real
+// peer that still lists id (exactly what that peer would send now) reaches o,
+// and the scheduler is given the chance to run o's packet listener first.
+func (f *h1Free) digestDuringExpiry(o int, id string) {
+	w := f.w
+	dst := w.nodes[o]
+	for _, p := range w.nodes {
+		if p.idx == o || !p.alive || p.g == nil {
+			continue
+		}
+		m, ok := findMeta(p.g.state.Nodes(), id)
+		if !ok || m.Left {
+			continue
+		}
+		meta := p.g.state.LocalNodeMetadata()
+		b, err := encodeDigest(digestHeader{NodeID: meta.ID, Addr: meta.Addr, Request: true}, p.g.state.Digest(), w.maxPacket)
+		if err != nil {
+			return
+		}
+		w.run.Fault("digest_during_expiry")
+		w.nw.Inject(p.addr, dst.addr, b)
+		runtime.Gosched()
+		return
+	}
 }
 
 func (f *h1Free) noteJoin(o int, id string) {
